@@ -143,6 +143,10 @@ MB = "moves::base::verif_kani::"
 KINDS = [("simple", "Simple"), ("castle_k", "CastlingKingside"), ("castle_q", "CastlingQueenside"), ("double", "PawnDouble"), ("ep", "Enpassant"),
          ("promo_n", "PromoteKnight"), ("promo_b", "PromoteBishop"), ("promo_r", "PromoteRook"), ("promo_q", "PromoteQueen")]
 ATT = ["C16/attackers/white", "C16/attackers/black"]
+# the three under-promotions run exactly the code of PromoteQueen (the kind -> piece table is
+# C06/constructors); their per-kind obligations are thorough-tier
+def KTIER(kind):
+    return "thorough" if kind in ("PromoteKnight", "PromoteBishop", "PromoteRook") else "quick"
 K("C06/well-formed", ["C06", "C01", "C02", "C19"], MB + "c06_well_formed_all_tuples", ["Move::is_well_formed", "Move::new", "Move::new_unchecked", "Move::kind", "Move::src", "Move::dst", "Move::src_cell"],
   "for all 10 x 13 x 64 x 64 tuples: is_well_formed == geometric possibility for that kind (reference), Move::new returns Ok(exactly that move) iff well-formed",
   assumes=["C15/attack/leapers-pawns", "C15/between/all-pairs"])
@@ -160,10 +164,10 @@ for _s, _k in KINDS + [("null", "Null")]:
           ["moves::base::make_move_unchecked", "moves::base::unmake_move_unchecked", "moves::base::do_make_move", "moves::base::do_unmake_move", "moves::base::update_castling",
            "moves::base::do_make_pawn_double", "moves::base::do_make_enpassant", "moves::base::do_make_castling_kingside", "moves::base::do_make_castling_queenside", "RawBoard::put", "Board::color_mut", "Board::piece_mut"],
           "for all well-formed boards (side %s; consistent mark; rights only with king and rook at home; ANY counters) x all pseudo-legal moves of kind %s (incl. those leaving the king attacked): after make, the six raw fields == ref_apply (saturating counters), derived sets well-formed at every square; after unmake every field, the hash and all 16 sets equal the original" % (_c, _k),
-          assumes=ATT + (["C06/semilegal/%s/%s" % (_k, _c)] if _k != "Null" else []))
+          assumes=ATT + (["C06/semilegal/%s/%s" % (_k, _c)] if _k != "Null" else []), tier=KTIER(_k))
         K("C05/hash-step/%s/%s" % (_k, _c), ["C05", "C02"], MB + "c05_hash_%s_%s" % (_s, _c), ["moves::base::do_make_move", "zobrist::pieces", "zobrist::castling", "zobrist::enpassant", "zobrist::castling_delta"],
           "for all boards as above with hash == from-scratch hash: after make of any pseudo-legal move of kind %s (side %s) the stored hash == from-scratch hash of the new raw position" % (_k, _c),
-          assumes=["C05/scratch/zobrist-hash"])
+          assumes=["C05/scratch/zobrist-hash"], tier=KTIER(_k))
 K("C05/keys/single-feature", ["C05", "C19"], "zobrist::verif_kani::c05_keys_single_feature_differences", ["zobrist::pieces", "zobrist::castling", "zobrist::enpassant", "zobrist::MOVE_SIDE"],
   "tables of this build: empty-cell key is 0; keys of two different cells on one square differ; side key != 0; toggling one castling right changes the castling key; en-passant keys are non-zero and pairwise different; every index in range")
 K("C05/keys/castling-delta", ["C05"], "zobrist::verif_kani::c05_castling_delta_keys", ["zobrist::castling_delta"],
@@ -197,12 +201,12 @@ for _s, _k in KINDS:
         K("C01/legal/is-legal/%s/%s" % (_k, _c), ["C01", "C02", "C07", "C09"], LG + "c01_is_legal_%s_%s" % (_s, _c),
           ["legal::Checker::new", "legal::Checker::is_legal", "legal::Checker::is_attacked", "legal::NilPrechecker::is_legal_pre", "Move::is_legal_unchecked"],
           "for all well-formed boards (side %s, one king each, consistent mark, normalised rights) x all pseudo-legal moves of kind %s: Move::is_legal_unchecked (Checker without prefilter) == (mover's king not attacked in ref_apply(position, move))" % (_c, _k),
-          assumes=TABLES + ["C15/pawns/advances", "C16/check-queries/w", "C16/check-queries/b", "C06/semilegal/%s/%s" % (_k, _c)], timeout=3600, mem_gb=16)
+          assumes=TABLES + ["C15/pawns/advances", "C16/check-queries/w", "C16/check-queries/b", "C06/semilegal/%s/%s" % (_k, _c)], timeout=3600, mem_gb=16, tier=KTIER(_k))
         K("C01/legal/is-legal-prefilter/%s/%s" % (_k, _c), ["C01", "C02", "C07", "C09"], LG + "c01_is_legal_pre_%s_%s" % (_s, _c),
           ["legal::Checker::new", "legal::Checker::is_legal", "legal::Checker::is_attacked", "legal::DefaultPrechecker::new", "legal::DefaultPrechecker::pinned",
            "legal::DefaultPrechecker::bishop_xray", "legal::DefaultPrechecker::rook_xray", "legal::DefaultPrechecker::is_legal_pre"],
           "the same with the pin / check prefilter (DefaultPrechecker: the decision used by the legal generators, has_legal_moves and SAN): == (mover's king not attacked in ref_apply(position, move)), side %s, kind %s" % (_c, _k),
-          assumes=TABLES + ["C15/between/all-pairs", "C15/pawns/advances", "C16/check-queries/w", "C16/check-queries/b", "C06/semilegal/%s/%s" % (_k, _c)], timeout=3600, mem_gb=16)
+          assumes=TABLES + ["C15/between/all-pairs", "C15/pawns/advances", "C16/check-queries/w", "C16/check-queries/b", "C06/semilegal/%s/%s" % (_k, _c)], timeout=3600, mem_gb=16, tier=KTIER(_k))
         ISLEGAL += ["C01/legal/is-legal/%s/%s" % (_k, _c), "C01/legal/is-legal-prefilter/%s/%s" % (_k, _c)]
 K("C01/validate-glue", ["C01", "C02", "C09", "C10"], MB + "c01_validate_glue", ["Move::validate", "Move::semi_validate"],
   "with is_semilegal and is_legal_unchecked imported as free booleans: semi_validate is Ok iff semilegal (else NotSemiLegal); validate is Err(NotSemiLegal) if not semilegal, else Ok iff legal, else Err(NotLegal)",
@@ -228,7 +232,7 @@ for _s, _k in KINDS + [("null", "Null")]:
         K("C02/make-move/%s/%s" % (_k, _c), ["C02", "C01", "C04"], MK + "c02_make_%s_%s" % (_s, _c),
           ["<Move as Make>::make_raw", "<TryUnchecked as Make>::make_raw", "Move::semi_validate", "moves::base::make_move_unchecked", "moves::base::unmake_move_unchecked", "Board::is_opponent_king_attacked"],
           "for all well-formed boards (side %s, one king each, consistent mark, normalised rights, any counters) x all WELL-FORMED moves of kind %s: make_raw is Ok iff the move is legal by the rules; on Ok the position is ref_apply(..) with well-formed derived sets and the mover's king is not attacked; on Err every field, the hash and all 16 sets are exactly as before; no panic" % (_c, _k),
-          assumes=ATT, timeout=3000, mem_gb=16)
+          assumes=ATT, timeout=3000, mem_gb=16, tier=KTIER(_k))
 UC = "moves::uci::verif_kani::"
 for _c in ("w", "b"):
     K("C10/into-move/%s" % _c, ["C10", "C02", "C12"], UC + "c10_into_move_%s" % _c, ["uci::Move::into_move", "uci::Move::do_into_move", "<uci::Move as From<Move>>::from"],
